@@ -842,7 +842,7 @@ Proof.
     apply (LL_master (mkrjob p (x_parser_bs s2) None) (fst p) _ _ _ _ _ _ L2); [|rewrite NX2; apply N.le_refl|reflexivity].
     intro X. apply lines_allbits in X.
     assert (X0 : In (fst p) (allbitsp (all_jobs s) s)) by exact X.
-    rewrite FP in LT. pose proof (L_ub _ _ _ _ _ _ L PD _ X0 LT) as IN. apply ubs_In in IN. destruct IN as (u0 & H0 & Q0 & E0).
+    rewrite <- FP in LT. pose proof (L_ub _ _ _ _ _ _ L PD _ X0 LT) as IN. apply ubs_In in IN. destruct IN as (u0 & H0 & Q0 & E0).
     assert (B0 : u_base u0 = p).
     { pose proof (SB u0 H0) as Z. unfold ubit in E0. destruct (u_base u0) as [a b]. simpl in *. subst p. unfold d_pos. simpl in E0. congruence. }
     apply (NOC u0); auto. unfold unord_q. apply filter_In. split; auto. rewrite US2. apply discard_keep; auto.
@@ -876,3 +876,86 @@ Proof.
     + intro b. unfold lines. snorm. apply Nat.le_refl.
     + intro b. unfold allbits. snorm. auto.
 Qed.
+
+Lemma lld_parse1 cfg att r st st' :
+  inv st -> lld st -> ev_next st (EvParse1 att r) -> parse1 cfg att r st = Some st' -> lld st'.
+Proof.
+  intros IV I EV H. unfold parse1 in H.
+  destruct (del_run (CParse att) st) as [s1|] eqn:D; [|discriminate].
+  destruct (inv_del_parse _ _ _ D IV) as (_ & _ & _ & _ & PD1).
+  destruct (del_run_spec _ _ _ D) as (l1 & l2 & E & ES1).
+  assert (L2 : LLs (all_jobs (detach att s1)) (detach att s1)).
+  { generalize (lld_LLs st IV I). subst s1. apply LLs_mono; [view_fin|view_fin|pb_fin| | | ].
+    - intro id. snorm. rewrite E. lnorm. lc_fin.
+    - intro b. snorm. rewrite E. lnorm. occ_fin.
+    - intro b. snorm. rewrite E. lnorm. in_fin. }
+  assert (SB2 : forall u, In u (x_unords (detach att s1)) -> snd (u_base u) = 0).
+  { intros u Hu. subst s1. autorewrite with xf in Hu. xs in Hu. pose proof (i_unord _ IV) as UO. rewrite Forall_forall in UO.
+    apply UO; auto. }
+  assert (F2 : x_next (detach att s1) = x_next st /\ x_parsing_done (detach att s1) = false).
+  { subst s1. autorewrite with xf. xs. xs in PD1. auto. }
+  destruct F2 as (NX2 & PD2).
+  clear IV I D ES1 E PD1. set (aend := att_end att s1) in *. clearbody aend.
+  match type of H with (if ?c then _ else _) = _ => destruct c eqn:CC; [|discriminate] end. clear CC.
+  set (s2 := detach att s1) in *. clearbody s2. clear s1.
+  set (bs := res_bs r) in *.
+  destruct (LLs_advance cfg bs s2 [] L2) as [L3 _]. simpl app in L3.
+  assert (SB3 : forall u, In u (x_unords (advance cfg bs s2)) -> snd (u_base u) = 0).
+  { intros u Hu. destruct (adv_stems _ _ _ _ Hu) as (u0 & H0 & (_ & S2 & _)). rewrite S2. auto. }
+  assert (F3 : x_next (advance cfg bs s2) = x_next st /\ x_parsing_done (advance cfg bs s2) = false /\
+               x_parser_bs (advance cfg bs s2) = bs).
+  { unfold advance. autorewrite with xf. xs. auto. }
+  destruct F3 as (NX3 & PD3 & PB3).
+  set (s3 := advance cfg bs s2) in *. clearbody s3. clear L2 SB2 NX2 PD2.
+  destruct r as [b ps|b g|b code|b ps lv crc]; simpl res_bs in *; subst bs.
+  - match type of H with (if ?c then _ else _) = _ => destruct c; [|discriminate] end. inversion H; subst st'. clear H.
+    eapply LLs_lld_view; [exact L3| | | | | | ]; view_fin.
+  - match type of H with (if ?c then _ else _) = _ => destruct c; [|discriminate] end. inversion H; subst st'. clear H.
+    apply lld_parse_finish. exact L3.
+  - match type of H with (if ?c then _ else _) = _ => destruct c; [discriminate|] end. inversion H; subst st'. clear H.
+    eapply LLs_lld_view; [exact L3| | | | | | ]; unfold fail; view_fin.
+  - match type of H with (if ?c then _ else _) = _ => destruct c; [|discriminate] end. inversion H; subst st'. clear H.
+    simpl in EV.
+    apply (lld_parse_ok cfg lv crc (set_par ps (set_next (d_bit b) s3)) (x_next s3)).
+    + exact L3.
+    + xs. rewrite PB3, NX3. unfold HDR_MIN in EV. clear - EV. lia.
+    + xs. rewrite PB3. reflexivity.
+    + xs. exact PD3.
+    + xs. exact SB3.
+Qed.
+
+(* ---- the invariant is inductive -------------------------------------------------------------------- *)
+Lemma lld_init n tin tout ultra : lld (init_state n tin tout ultra).
+Proof.
+  constructor; simpl.
+  - constructor.
+  - constructor.
+  - intros _ b [].
+  - intros u j [].
+Qed.
+
+(* hypotheses used: [inv], [own] (only its clause o_next: x_next <= parser position, for do_scan), the label
+   hypotheses [ev_next] (parse1, POk) and [ev_fresh] (scan1).  Not needed: cfg_safe, cfg_drops, sown, cnt,
+   x_failed st' = None (the failing branches preserve lld as well). *)
+Theorem lld_step cfg st e st' :
+  inv st -> own st -> ev_next st e -> ev_fresh st e -> lld st -> step cfg st e = Some st' -> lld st'.
+Proof.
+  intros I OW EV EF L H. unfold step in H. destruct (x_failed st); [discriminate|].
+  destruct e.
+  - eapply lld_input; eauto.
+  - eapply lld_eof; eauto.
+  - eapply lld_written; eauto.
+  - eapply lld_parse0; eauto.
+  - eapply lld_parse1; eauto.
+  - eapply lld_retr0; eauto.
+  - eapply lld_retr1; eauto.
+  - eapply lld_retr2; eauto.
+  - eapply lld_emit0; eauto.
+  - eapply lld_emit1; eauto.
+  - eapply lld_reorder; eauto.
+  - eapply lld_scan0; eauto.
+  - eapply lld_scan1; eauto.
+Qed.
+
+Print Assumptions lld_init.
+Print Assumptions lld_step.
